@@ -516,6 +516,25 @@ def session_pairs(thorough):
     return [dict(c, reopen_at=1) for c in pairs(thorough)]
 
 
+def twin_pairs(thorough):
+    """Ordered pairs (both orders) across two objects of ONE kind in the same deck. Quick: one value per property (the
+    first of its pair alphabet); thorough: the whole reduced alphabet."""
+    cat.kinds()
+    if thorough:
+        return cross_pairs(cat.TWIN_GROUPS, True)
+    cases = []
+    for ka, kb in cat.TWIN_GROUPS:
+        K = cat.kind(ka)
+        red = [(P.name, P.pair_alphabet(False)[0].label) for P in K.settable if P.pair_alphabet(False)]
+        if len(K.settable) == 1:
+            red = [(P.name, V.label) for P in K.settable for V in P.pair_alphabet(False)]
+        for x, y in ((ka, kb), (kb, ka)):
+            for a in red:
+                for b in red:
+                    cases.append({"t": "seq", "deck": K.deck, "steps": [[x, a[0], a[1]], [y, b[0], b[1]]]})
+    return cases
+
+
 def cross_pairs(groups, thorough=False):
     cases = []
     for grp in groups:
@@ -638,7 +657,9 @@ def run(ctx):
     ctx.extra["cross_point_pair_histories"] = len(cq)
     sp = session_pairs(thorough)
     ctx.extra["two_session_pair_histories"] = len(sp)
-    p2 = p2 + cq + sp
+    tw = twin_pairs(thorough)
+    ctx.extra["twin_object_pair_histories"] = len(tw)
+    p2 = p2 + cq + sp + tw
     if thorough:
         cp, tr = cross_pairs(cat.CROSS_OBJECT_GROUPS), triples()
         ctx.extra["cross_object_pair_histories"] = len(cp)
